@@ -65,6 +65,15 @@ func (r *capRoute) UpdateDestination(index int, opts map[string]string) error {
 }
 func (r *capRoute) Update(opts map[string]string) error { return fmt.Errorf("capture route") }
 
+// expOf: the result of a call as the driver saw it, written into its "begin" event; the trace specification uses it
+// to prune its linearization search (the events are written after the calls of the history have returned)
+func expOf(fwd bool) string {
+	if fwd {
+		return "a"
+	}
+	return "r"
+}
+
 func newTable(t *testing.T) (*table.Table, *capRoute) {
 	cfg, err := table.NewTableConfig("/dev/shm/verif-c19-nospool", "24h",
 		validate.LevelLegacy{Level: m20.NoneLegacy}, validate.LevelM20{Level: m20.NoneM20}, true)
@@ -159,7 +168,7 @@ func TestOrdered(t *testing.T) {
 				if !r.fwd {
 					nofwd++
 				}
-				evs[r.b] = map[string]interface{}{"ev": "begin", "c": r.id, "ts": r.ts, "dot": r.dot}
+				evs[r.b] = map[string]interface{}{"ev": "begin", "c": r.id, "ts": r.ts, "dot": r.dot, "exp": expOf(r.fwd)}
 				evs[r.e] = map[string]interface{}{"ev": "end", "c": r.id, "fwd": r.fwd, "times": r.times}
 			}
 		}
@@ -382,11 +391,11 @@ func TestFold(t *testing.T) {
 				if r.times == 0 && r.k != ph.Blk {
 					missing[keys[r.k]] = true
 				}
-				end := "end"
+				end, exp := "end", expOf(r.times > 0)
 				if r.k == ph.Blk {
-					end = "endx"
+					end, exp = "endx", "?"
 				}
-				evs[r.k][r.b] = map[string]interface{}{"ev": "begin", "c": r.id, "ts": r.ts, "dot": r.dot}
+				evs[r.k][r.b] = map[string]interface{}{"ev": "begin", "c": r.id, "ts": r.ts, "dot": r.dot, "exp": exp}
 				evs[r.k][r.e] = map[string]interface{}{"ev": end, "c": r.id, "fwd": r.times > 0, "times": r.times}
 			}
 		}
@@ -679,7 +688,7 @@ func TestManyNames(t *testing.T) {
 	for _, i := range order {
 		c := int64(i) + 1
 		lg.Emit(map[string]interface{}{"ev": "hist", "h": fmt.Sprintf("m%d", i), "fam": "many", "name": names[i], "why": proj[i]})
-		lg.Emit(map[string]interface{}{"ev": "begin", "c": c, "ts": int64(cap.ts[i]), "dot": false})
+		lg.Emit(map[string]interface{}{"ev": "begin", "c": c, "ts": int64(cap.ts[i]), "dot": false, "exp": expOf(cap.times[i] > 0)})
 		lg.Emit(map[string]interface{}{"ev": "end", "c": c, "fwd": cap.times[i] > 0, "times": int(cap.times[i])})
 		msg, isbad := bad[names[i]]
 		badcall := int64(0)
